@@ -74,3 +74,93 @@ Proof. rewrite entities_exactly_once. auto. Qed.
 (* an unpatched reference is presented but not descended into *)
 Theorem unpatched_not_descended l : visit_tref (TR l []) = [ETypeRef l].
 Proof. reflexivity. Qed.
+
+(* ---------- each type is presented right after its owner, whole, nested types included ---------- *)
+(* every (owner, type) pair a file declares: fields of structs and enumerators, parameters and return members, aliases *)
+Definition owned_field (f : vfield) : event * tref := (EField (vf_id f), vf_ty f).
+Definition owned_param (f : vfield) : event * tref := (EParam (vf_id f), vf_ty f).
+Definition owned_def (d : vdef) : list (event * tref) :=
+  match d with
+  | VStruct _ fs => map owned_field fs
+  | VIface _ ops => flat_map (fun o => map owned_param (vo_params o) ++ map owned_param (vo_rets o)) ops
+  | VEnum _ es => flat_map (fun e => map owned_field (snd e)) es
+  | VCustom _ => []
+  | VAlias id t => [(EAlias id, t)]
+  end.
+Definition owned (f : vfile) : list (event * tref) := flat_map owned_def (vfile_defs f).
+(* the walk `l` holds the owner `o` immediately followed by the complete walk of its type `t` *)
+Definition contains_block (l : list event) (o : event) (t : tref) : Prop := exists pre post, l = pre ++ o :: visit_tref t ++ post.
+
+Lemma block_here o t : contains_block (o :: visit_tref t) o t.
+Proof. exists [], []. cbn. rewrite app_nil_r. reflexivity. Qed.
+Lemma block_cons e l o t : contains_block l o t -> contains_block (e :: l) o t.
+Proof. intros [pre [post E]]. exists (e :: pre), post. rewrite E. reflexivity. Qed.
+Lemma block_app_l a l o t : contains_block l o t -> contains_block (a ++ l) o t.
+Proof. intros [pre [post E]]. exists (a ++ pre), post. rewrite E, <- app_assoc. reflexivity. Qed.
+Lemma block_app_r b l o t : contains_block l o t -> contains_block (l ++ b) o t.
+Proof.
+  intros [pre [post E]]. exists pre, (post ++ b). rewrite E, <- app_assoc. cbn [app]. rewrite <- app_assoc. reflexivity.
+Qed.
+Lemma block_in_flat_map {A} (g : A -> list event) l x o t : In x l -> contains_block (g x) o t -> contains_block (flat_map g l) o t.
+Proof.
+  intros Hin Hb. apply in_split in Hin as [l1 [l2 E]]. subst l. rewrite flat_map_app. cbn [flat_map].
+  apply block_app_l, block_app_r, Hb.
+Qed.
+Lemma block_fields fs o t : In (o, t) (map owned_field fs) -> contains_block (flat_map visit_field fs) o t.
+Proof.
+  intros Hin. apply in_map_iff in Hin as [f [E Hf]]. apply block_in_flat_map with (x := f); auto.
+  inversion E; subst. apply block_here.
+Qed.
+Lemma block_params ps o t : In (o, t) (map owned_param ps) -> contains_block (flat_map visit_param ps) o t.
+Proof.
+  intros Hin. apply in_map_iff in Hin as [f [E Hf]]. apply block_in_flat_map with (x := f); auto.
+  inversion E; subst. apply block_here.
+Qed.
+Theorem type_right_after_owner f o t : In (o, t) (owned f) -> contains_block (visit_file f) o t.
+Proof.
+  unfold owned, visit_file. intros Hin. apply in_flat_map in Hin as [d [Hd Hin]].
+  apply block_cons, block_app_l, block_in_flat_map with (x := d); auto.
+  destruct d as [id fs|id ops|id es|id|id ty]; cbn [owned_def visit_def] in *.
+  - apply block_cons, block_fields, Hin.
+  - apply in_flat_map in Hin as [op [Hop Hin]]. apply block_cons, block_in_flat_map with (x := op); auto.
+    unfold visit_op. apply block_cons. apply in_app_or in Hin as [Hin|Hin].
+    + apply block_app_r, block_params, Hin.
+    + apply block_app_l, block_params, Hin.
+  - apply in_flat_map in Hin as [e [He Hin]]. apply block_cons, block_in_flat_map with (x := e); auto.
+    unfold visit_enumerator. apply block_cons, block_fields, Hin.
+  - destruct Hin.
+  - destruct Hin as [E|[]]. inversion E; subst. apply block_here.
+Qed.
+(* a type's own walk: itself first, then each nested type's complete walk, in order (to any depth, by recursion) *)
+Theorem nested_types_follow l ns : visit_tref (TR l ns) = ETypeRef l :: flat_map visit_tref ns.
+Proof. reflexivity. Qed.
+(* the type references presented are exactly those of the owned types, in source order: none skipped, none extra *)
+Definition is_tref (e : event) : bool := match e with ETypeRef _ => true | _ => false end.
+Lemma tref_only t : filter is_tref (visit_tref t) = visit_tref t.
+Proof.
+  induction t as [l ns IH] using tref_ind'. cbn. f_equal. induction IH as [|n ns Hn _ IHns]; cbn; auto.
+  rewrite filter_app, Hn, IHns. reflexivity.
+Qed.
+Lemma tfilter_flat_map {A} (f : A -> list event) l : filter is_tref (flat_map f l) = flat_map (fun x => filter is_tref (f x)) l.
+Proof. induction l; cbn; auto. rewrite filter_app. congruence. Qed.
+Lemma tfilter_fields fs : filter is_tref (flat_map visit_field fs) = flat_map (fun p => visit_tref (snd p)) (map owned_field fs).
+Proof. induction fs as [|f fs IH]; cbn; auto. rewrite filter_app, tref_only, IH. reflexivity. Qed.
+Lemma tfilter_params ps : filter is_tref (flat_map visit_param ps) = flat_map (fun p => visit_tref (snd p)) (map owned_param ps).
+Proof. induction ps as [|f fs IH]; cbn; auto. rewrite filter_app, tref_only, IH. reflexivity. Qed.
+Lemma flat_map_flat_map {A B C} (f : A -> list B) (g : B -> list C) l : flat_map g (flat_map f l) = flat_map (fun x => flat_map g (f x)) l.
+Proof. induction l; cbn; auto. rewrite flat_map_app. congruence. Qed.
+Theorem types_exactly_once f : filter is_tref (visit_file f) = flat_map (fun p => visit_tref (snd p)) (owned f).
+Proof.
+  unfold visit_file, owned. cbn [filter is_tref]. rewrite filter_app.
+  replace (filter is_tref match vfile_module f with Some m => [EModule m] | None => [] end) with (@nil event)
+    by (destruct (vfile_module f); reflexivity).
+  cbn [app]. rewrite tfilter_flat_map, flat_map_flat_map. apply flat_map_ext'. intros d _.
+  destruct d as [id fs|id ops|id es|id|id ty]; cbn [visit_def owned_def filter is_tref flat_map].
+  - apply tfilter_fields.
+  - rewrite tfilter_flat_map, flat_map_flat_map. apply flat_map_ext'. intros op _. unfold visit_op. cbn [filter is_tref].
+    rewrite filter_app, !tfilter_params, flat_map_app. reflexivity.
+  - rewrite tfilter_flat_map, flat_map_flat_map. apply flat_map_ext'. intros e _. unfold visit_enumerator. cbn [filter is_tref].
+    apply tfilter_fields.
+  - reflexivity.
+  - rewrite app_nil_r. apply tref_only.
+Qed.
